@@ -271,6 +271,29 @@ func (workingMem *WorkingMemory) IndexVariables() {
 
 }
 
+// RemoveUnreachable drops every node that is not in the given set of reachable nodes (the nodes catalogued from
+// the rule entries of the knowledge base) and rebuilds the variable index. The nodes of a rule text that was
+// rejected half way stay behind in the working memory with no rule entry linking to them; cloning and loading
+// a stored knowledge base fail on such nodes.
+func (workingMem *WorkingMemory) RemoveUnreachable(reachable map[string]Meta) {
+	for snapshot, expr := range workingMem.expressionSnapshotMap {
+		if _, ok := reachable[expr.AstID]; !ok {
+			delete(workingMem.expressionSnapshotMap, snapshot)
+		}
+	}
+	for snapshot, exprAtm := range workingMem.expressionAtomSnapshotMap {
+		if _, ok := reachable[exprAtm.AstID]; !ok {
+			delete(workingMem.expressionAtomSnapshotMap, snapshot)
+		}
+	}
+	for snapshot, variable := range workingMem.variableSnapshotMap {
+		if _, ok := reachable[variable.AstID]; !ok {
+			delete(workingMem.variableSnapshotMap, snapshot)
+		}
+	}
+	workingMem.IndexVariables()
+}
+
 // AddExpression will add expression into its map if the expression signature is unique
 // if the expression is already in its map, it will return one from the map.
 func (workingMem *WorkingMemory) AddExpression(exp *Expression) *Expression {
